@@ -23,7 +23,7 @@ THIRD_PARTY = [  # fixtures that arrive signed by someone else: (fixture, fmt, t
 FIXTURE_FMT = [
     ("hello.jar", "jar", []), ("ClassLibrary1.dll", "pe-coff", []), ("WindowsFormsApplication1.exe", "pe-coff", []), ("dummy.msi", "msi", []),
     ("dummy.cab", "cab", []), ("hello.ps1", "ps", []), ("hello.ps1xml", "ps", []), ("hello.mof", "ps", []), ("dummy.xap", "xap", []),
-    ("VSIXProject1.vsix", "vsix", []), ("App1_1.0.3.0_x64.appx", "appx", []), ("dummy.apk", "apk", []),
+    ("VSIXProject1.vsix", "vsix", []), ("App1_1.0.3.0_x64.appx", "appx", []), ("dummy.apk", "apk", []), ("dummy.apk", "apk", ["(v2-only)"]),
     ("zlib1g_1.2.8.dfsg-5_i386.deb", "deb", []), ("rocky-basesystem-11-13.el9.noarch.rpm", "rpm", []),
     ("WindowsFormsApplication1.exe.manifest", "appmanifest", []), ("hyperv.cat", "cat", []), ("dummy.dmg", "dmg", []), ("dummy.pkg", "xar", []),
     ("slimfile.app", "macho", []),
@@ -88,8 +88,11 @@ class Run:
         if fmt.startswith("pgp-"):
             sigtype = "pgp"
             out += {"pgp-detached": ".asc" if "--armor" in flags else ".sig", "pgp-clearsign": ".clearsigned", "pgp-inline": ".signed.gpg"}[fmt]
-        steps = []
-        if fmt == "apk":
+        if fmt == "apk" and "(v2-only)" in flags:
+            # `relic sign` straight on the unsigned APK: a v2 block and no v1 JAR signature (valid for minSdk >= 24)
+            flags = []
+            steps = [dict(infile=infile, outfile=out, sigtype=None, flags=[])]
+        elif fmt == "apk":
             # the documented flow (functest.sh): v1 JAR signature announcing v2, then the v2 block
             steps = [dict(infile=infile, outfile=out, sigtype="jar", flags=["--apk-v2-present"]), dict(infile=out, outfile=out, sigtype=None, flags=[])]
         else:
@@ -176,6 +179,8 @@ class Run:
             if v is not None and (v == art.view or v in self.genuine.get(art.fixture + "|" + fmt, ()) or (spec.get("neutral") and spec["neutral"](art.view, v))):
                 self.note(fmt, "accepted_unprotected", klass)
                 return
+        if v is not None and spec.get("classify") and mut.get("expect") != "reject":
+            klass = spec["classify"](art.view, v) or klass
         self.note(fmt, "accepted_protected", klass)
         key = "C02:spec:%s:%s%s" % (fmt, klass, ":unparseable" if v is None and mut.get("expect") != "reject" else "")
         if mut.get("key"):
